@@ -4,7 +4,7 @@ From Coq Require Import List NArith ZArith Bool.
 Import ListNotations.
 Require Import Verif.Lib.Wire Verif.Lib.Text Verif.Lib.Utf8 Verif.Lib.Percent
                Verif.Gen.Facts_C17 Verif.Model.C17 Verif.Model.C17_glue Verif.Gen.Code_C17 Verif.Proofs.C17 Verif.Proofs.C17_gen
-               Verif.Proofs.C17_gen2 Verif.Proofs.C17_total Verif.Proofs.C17_rel Verif.Proofs.C17_text Verif.Proofs.C17_more.
+               Verif.Proofs.C17_gen2 Verif.Proofs.C17_total Verif.Proofs.C17_rel Verif.Proofs.C17_text Verif.Proofs.C17_more Verif.Proofs.C17_more2.
 Open Scope N_scope.
 
 (* extra path elements: split the produced suffix on '/', percent-decode, UTF-8 decode:
@@ -566,3 +566,12 @@ Theorem C17_static_url_x_external_total : forall e rs regs path o kw sub s url,
   must_static e rs regs path o kw = true -> exists u, static_url_x e rs regs path o kw = Ok u.
 Proof. exact static_url_x_external_total. Qed.
 Print Assumptions C17_static_url_x_external_total.
+
+(* ================= third proof-only round ================= *)
+(* the virtual path tuple the resource adapter hands to a route (resource_url(.., route_name=..): the remainder value)
+   consists of encodable texts whenever the lineage names do -- with or without a virtual root header *)
+Theorem C17_resource_adapter_tuple_ok : forall names vroot vp vpt,
+  forallb text_ok names = true -> resource_adapter names vroot = Ok (vp, vpt) ->
+  forallb text_ok vpt = true /\ kwval_ok (KSeq vpt []) = true.
+Proof. exact resource_adapter_tuple_ok. Qed.
+Print Assumptions C17_resource_adapter_tuple_ok.
